@@ -494,6 +494,8 @@ class VTCase(unittest.TestCase):
             if _STR_CALLS == sd[0]:
                 emit('t', self._vt['n'], 'str_die', _STR_CALLS)
                 die(sd[1])
+        if 'strv' in self._vt:
+            return self._vt['strv']      # a test with a str() of its own
         return super().__str__()
 
     def run(self, result=None):
